@@ -9,9 +9,11 @@ import Thanos.Model.Capnp
 
   fan <entry> <rf> <rep> <placement> <scripts>                    (C22, C23)
       entry      h = HTTP receiveHTTP (answer: status code) | g = gRPC RemoteWrite (answer: code name)
+                 c = as h with the peers reached over Cap'n Proto (outcomes k o N x X; x, X arrive as Unavailable)
       rf         replication factor (≥ 1)
       rep        replica header / field: 0 = not yet replicated, k > 0 = already replicated as replica k
-      placement  series separated by `,`; per series the endpoint index of replica 0,1,… joined by `.`
+      placement  series separated by `,`; per series `[T@]e.e.e`: optional tenant index (non-decreasing) and
+                 the endpoint index of replica 0,1,… joined by `.`
       scripts    arrival orders separated by `/`; an order is `e:r:o` entries joined by `,`
                  (endpoint, replica, outcome); outcomes: k ok | c AlreadyExists | C errConflict |
                  o out-of-order sample | u gRPC Unavailable | U errUnavailable | n errNotReady |
@@ -82,7 +84,44 @@ def parseEntry (s : String) : Option ((Nat × Nat) × Outcome) :=
 
 def parseScript (s : String) : Option (List ((Nat × Nat) × Outcome)) := (listOf ',' s).mapM parseEntry
 
-def parsePlacement (s : String) : Option (List (List Nat)) := (listOf ',' s).mapM (parseNats? '.')
+/-- a series of the placement: `[T@]e.e.e` (tenant index, endpoints of replica 0,1,…) -/
+def parsePlacedSeries (s : String) : Option (Nat × List Nat) :=
+  match splitChar '@' s with
+  | [es] => (parseNats? '.' es).map fun l => (0, l)
+  | [t, es] => do pure (← parseNat? t, ← parseNats? '.' es)
+  | _ => none
+
+def nonDecreasing : List Nat → Bool
+  | a :: b :: rest => a ≤ b && nonDecreasing (b :: rest)
+  | _ => true
+
+/-- the placement; tenants only group the series of a request (they must not decrease along it and
+    are at most 9), the fan-out counts per series whatever the tenant -/
+def parsePlacement (s : String) : Option (List (List Nat)) := do
+  let ss ← (listOf ',' s).mapM parsePlacedSeries
+  if nonDecreasing (ss.map (·.1)) ∧ ss.all (·.1 ≤ 9) then pure (ss.map (·.2)) else none
+
+/-- outcomes of the Cap'n Proto transport (entry `c`): the peer's storage rejects the sample (o),
+    is not ready (N), or fails otherwise (x, X) — which `writecapnp.RemoteWriteClient` reports as
+    `codes.Unavailable` -/
+def parseCapnpOutcome : String → Option Outcome
+  | "k" => some none
+  | "o" => some (some kConflict)
+  | "N" => some (some kGrpcUnavail)
+  | "x" => some (some kGrpcUnavail)
+  | "X" => some (some kGrpcUnavail)
+  | _ => none
+
+def parseCapnpEntry (s : String) : Option ((Nat × Nat) × Outcome) :=
+  match splitChar ':' s with
+  | [e, r, o] => do
+    let e ← parseNat? e
+    let r ← parseNat? r
+    let o ← parseCapnpOutcome o
+    pure ((e, r), o)
+  | _ => none
+
+def parseCapnpScript (s : String) : Option (List ((Nat × Nat) × Outcome)) := (listOf ',' s).mapM parseCapnpEntry
 
 /-- insertion sort of the writes by (endpoint, replica) -/
 def insertWrite (w : (Nat × Nat) × List Nat) : Writes → Writes
@@ -377,10 +416,11 @@ def handle : List String → String
     | some syms, some req => v2http syms req
     | _, _ => "bad-op"
   | ["fan", entry, rf, rep, placement, scripts] =>
-    match parseNat? rf, parseNat? rep, parsePlacement placement, (splitChar '/' scripts).mapM parseScript with
+    match parseNat? rf, parseNat? rep, parsePlacement placement,
+          (splitChar '/' scripts).mapM (if entry = "c" then parseCapnpScript else parseScript) with
     | some rf, some rep, some pl, some scs =>
       if rf = 0 ∨ pl.isEmpty then "bad-op"
-      else if entry = "h" then fan true rf rep pl scs
+      else if entry = "h" ∨ entry = "c" then fan true rf rep pl scs
       else if entry = "g" then fan false rf rep pl scs
       else "bad-op"
     | _, _, _, _ => "bad-op"
